@@ -78,3 +78,7 @@ M("c18-unix-send-eof-under-receive-guard", "C18", A, "UNIXSocketStream.send_eof"
 M("c18-validate-socket-object-stays-blocking", "C18", "abc/_sockets.py", "_validate_socket", "    elif isinstance(sock_or_fd, socket.socket):\n        sock = sock_or_fd\n",
   "    elif isinstance(sock_or_fd, socket.socket):\n        return sock_or_fd\n", ["R18-f"])
 N("c18-n-validate-socket-setblocking-per-branch", "C18", "abc/_sockets.py", "_validate_socket", "    elif isinstance(sock_or_fd, socket.socket):\n        sock = sock_or_fd\n", "    elif isinstance(sock_or_fd, socket.socket):\n        sock = sock_or_fd\n        sock.setblocking(False)\n")
+
+# from seeded change C18/h (round 4)
+M("c18-send-fds-waits-for-readable", "C18", A, "UNIXSocketStream.send_fds", "                    await self._wait_until_writable(loop)", "                    await self._wait_until_readable(loop)", ["R18-g"])
+M("c18-writable-helper-registers-reader", "C18", A, "_RawSocketMixin._wait_until_writable", "        loop.add_writer(self.__raw_socket, f.set_result, None)", "        loop.add_reader(self.__raw_socket, f.set_result, None)", ["R18-g"])
